@@ -20,6 +20,7 @@ import NV.C03.Model
 import NV.C03.Frontend
 import NV.C03.HashMap
 import NV.C03.Macro
+import NV.C03.Heap
 
 namespace NV.C03
 
@@ -381,7 +382,38 @@ def mdefLine (useSpec : Bool) (text : String) : String :=
     let n : Int := match ps with | none => -1 | some l => l.length
     s!"D {String.ofList name} nargs={n} exps={String.join ((storedText useSpec ps body).map hexByte)}"
 
+
+/-! ### arrtrace: add_array on the heap model (`Heap.lean`), same dump as harness/c03 `arrtrace` -/
+
+def showInts (l : List Int) : String := "[" ++ ",".intercalate (l.map toString) ++ "]"
+
+def runArrTrace (args : List String) : List String :=
+  match args.map String.toNat? with
+  | [some same, some psize, some pextra, some rsize, some rextra] =>
+    let pit : List Int := (List.range psize).map (fun i => Int.ofNat i + 1)
+    let rit : List Int := (List.range rsize).map (fun i => Int.ofNat i + 101)
+    let ap := 0
+    let ar := if same != 0 then 0 else 1
+    let af := 2
+    let H : Heap.Heap Int := fun a =>
+      if a = 0 then ⟨(if same != 0 then 2 else 1) + pextra, pit⟩
+      else if a = 1 then ⟨1 + rextra, rit⟩ else ⟨0, []⟩
+    let R := Heap.addArray H ap ar af
+    let d := R.1 R.2
+    let cell (nm : String) (c : Heap.Cell Int) : String :=
+      if c.items.isEmpty then s!" {nm}=*:[]" else s!" {nm}={c.ref}:{showInts c.items}"
+    let tail := (if pextra > 0 then cell "p" (R.1 ap) else "") ++ (if same == 0 && rextra > 0 then cell "r" (R.1 ar) else "")
+    let head := s!"A {same} {psize} {pextra} {rsize} {rextra}"
+    if d.items.isEmpty then [s!"{head} res=E ref=* items=[]{tail}"]
+    else
+      let who := if pextra > 0 && R.2 = ap then "P" else if same == 0 && rextra > 0 && R.2 = ar then "R" else "V"
+      [s!"{head} res={who} ref={d.ref} items={showInts d.items}{tail}"]
+  | _ => [s!"A {" ".intercalate args} !badargs"]
+
 def runModel (lines : List String) : List String :=
+  if lines.any (fun l => l.startsWith "arrtrace ") then
+    (lines.filter (fun l => l.startsWith "arrtrace ")).flatMap (fun l => runArrTrace (toks (l.drop 9).toString))
+  else
   if lines.any (fun l => l.startsWith "mdef ") then
     lines.filterMap (fun l => if l.startsWith "mdef " then some (mdefLine false (l.drop 5).toString) else none)
   else
@@ -401,8 +433,42 @@ def quirkList : List (String × Quirks) :=
 
 def clip (s : String) : String := if s.length > 160 then (s.take 160).toString ++ "..." else s
 
+
+/-- oracle for one real `arrtrace` dump, from the VALUE semantics only: the result is `p ++ r` with one reference, an
+    operand somebody else still holds is not the result, keeps its elements and is referenced exactly by its other holders -/
+def judgeArr (l : String) : Option String :=
+  match toks l with
+  | "A" :: a :: b :: c :: d :: e :: rest =>
+    match [a, b, c, d, e].map String.toNat? with
+    | [some same, some psize, some pextra, some rsize, some rextra] =>
+      let pit : List Int := (List.range psize).map (fun i => Int.ofNat i + 1)
+      let rit : List Int := if same != 0 then pit else (List.range rsize).map (fun i => Int.ofNat i + 101)
+      let field (k : String) : Option String := rest.findSome? (fun t => if t.startsWith (k ++ "=") then some (t.drop (k.length + 1)).toString else none)
+      let want := showInts (pit ++ rit)
+      if rest == ["!err"] then some s!"bad arrtrace-error add_array raised an error: {l}"
+      else if field "items" != some want then some s!"bad arrtrace-value result is not p ++ r: {clip l} want items={clip want}"
+      else if (pit ++ rit) != [] && field "ref" != some "1" then some s!"bad arrtrace-ref the result is not referenced exactly once: {clip l}"
+      else if field "res" == some "P" then some s!"bad arrtrace-alias the left operand is still held elsewhere but was reused for the result: {clip l}"
+      else if field "res" == some "R" then some s!"bad arrtrace-alias the right operand is still held elsewhere but was reused for the result: {clip l}"
+      else if pextra > 0 && field "p" != some (if pit.isEmpty then "*:[]" else s!"{pextra}:{showInts pit}") then
+        some s!"bad arrtrace-operand the left operand (held {pextra} times elsewhere) changed or has a wrong count: {clip l}"
+      else if same == 0 && rextra > 0 && field "r" != some (if rit.isEmpty then "*:[]" else s!"{rextra}:{showInts rit}") then
+        some s!"bad arrtrace-operand the right operand (held {rextra} times elsewhere) changed or has a wrong count: {clip l}"
+      else none
+    | _ => some s!"bad arrtrace-unparsable {clip l}"
+  | _ => some s!"bad arrtrace-unparsable {clip l}"
+
 def runJudge (body : List String) : List String :=
   let (input, impl) := splitJudge body
+  if input.any (fun l => l.startsWith "arrtrace ") then
+    let crash := impl.filter (fun l => l.startsWith "crash" || l.startsWith "sanitizer")
+    let dumps := impl.filter (fun l => l.startsWith "A ")
+    let n := (input.filter (fun l => l.startsWith "arrtrace ")).length
+    match crash.map (fun l => s!"bad impl-crash {clip l}") ++ dumps.filterMap judgeArr ++
+          (if dumps.length != n && crash.isEmpty then ["bad arrtrace-missing dump"] else []) with
+    | [] => ["ok"]
+    | vs => vs
+  else
   if input.any (fun l => l.startsWith "mdef ") then
     -- oracle: what the real handle_define stored must be the textbook template of the definition
     let want := input.filterMap (fun l => if l.startsWith "mdef " then some (mdefLine true (l.drop 5).toString) else none)
